@@ -489,6 +489,65 @@ example : resolveLinks
     [([⟨"internal", "a", 0⟩, ⟨"external", "u", 2⟩], [⟨"a", 1, 2⟩]), ([⟨"internal", "b", 3⟩], [⟨"b", 1, 1⟩])] := by
   decide
 
+/-! ## Document.copy: a subset of the pages -/
+
+/-- The test of the second loop of `resolve_links`, on the anchors of a list of pages. -/
+def keptIn (pages : List LPage) (l : Outline.Link) : Bool :=
+  !(l.type == "internal") || ((pages.flatMap (·.anchors)).map (·.name)).contains l.target
+
+/-- Taking pages away can only drop links: a link kept among the selected pages is kept in the whole
+document. -/
+theorem keptIn_mono (pages sub : List LPage) (hsub : ∀ p ∈ sub, p ∈ pages) (l : Outline.Link)
+    (h : keptIn sub l = true) : keptIn pages l = true := by
+  unfold keptIn at h ⊢
+  cases ht : (l.type == "internal") with
+  | false => simp
+  | true =>
+    simp only [ht, Bool.not_true, Bool.false_or] at h ⊢
+    rw [List.contains_iff_mem] at h ⊢
+    obtain ⟨a, ha, hn⟩ := List.mem_map.mp h
+    obtain ⟨p, hp, hap⟩ := List.mem_flatMap.mp ha
+    exact List.mem_map.mpr ⟨a, List.mem_flatMap.mpr ⟨p, hsub p hp, hap⟩, hn⟩
+
+/-- `document.copy(pages').write_pdf()` — `resolve_links` run on any selection of the pages of a document
+(some left out, reordered, repeated): every selected page keeps exactly the links it has in the PDF of
+the whole document, in order, **minus the internal links whose anchor lies on no selected page**; these
+are dropped (and reported, `links_dropped_reported`), never left dangling (`links_no_dangling`). -/
+theorem copy_links (pages sub : List LPage) (hsub : ∀ p ∈ sub, p ∈ pages) :
+    (resolveLinks sub).map (·.1) =
+      sub.map (fun p => (p.links.filter (keptIn pages)).filter (keptIn sub)) := by
+  rw [links_kept]
+  apply List.map_congr_left
+  intro p _
+  rw [List.filter_filter]
+  apply List.filter_congr
+  intro l _
+  show keptIn sub l = (keptIn sub l && keptIn pages l)
+  cases h : keptIn sub l with
+  | false => rfl
+  | true => rw [keptIn_mono pages sub hsub l h]; rfl
+
+/-- The destinations of the copy are destinations of the whole document. -/
+theorem copy_destinations (pages sub : List LPage) (hsub : ∀ p ∈ sub, p ∈ pages) :
+    ∀ n ∈ destNames sub, n ∈ destNames pages := by
+  intro n hn
+  rw [destNames_eq] at hn
+  obtain ⟨a, ha, hna⟩ := List.mem_map.mp hn
+  have ha' := (pageAnchors_sublist _ _).subset ha
+  obtain ⟨p, hp, hap⟩ := List.mem_flatMap.mp ha'
+  rw [← hna]
+  exact anchors_complete pages p (hsub p hp) a hap
+
+/-- Two pages; the copy holds the second only: its link to `a` (an anchor of the first page) goes, its
+link to `b` and its external link stay. -/
+example :
+    let p1 : LPage := ⟨[⟨"a", 1, 2⟩], [⟨"internal", "b", 0⟩]⟩
+    let p2 : LPage := ⟨[⟨"b", 1, 1⟩], [⟨"internal", "a", 1⟩, ⟨"internal", "b", 2⟩, ⟨"external", "u", 3⟩]⟩
+    (∀ p ∈ [p2], p ∈ [p1, p2]) ∧
+    (resolveLinks [p1, p2]).map (·.1) = [[⟨"internal", "b", 0⟩], [⟨"internal", "a", 1⟩, ⟨"internal", "b", 2⟩, ⟨"external", "u", 3⟩]] ∧
+    (resolveLinks [p2]).map (·.1) = [[⟨"internal", "b", 2⟩, ⟨"external", "u", 3⟩]] := by
+  refine ⟨by simp, by decide, by decide⟩
+
 /-! ## name tree order -/
 
 /-- `sorted(pdf_names, key=key_bytes)` (repair 09da5a8): the `/Dests` array is a permutation of the
